@@ -108,6 +108,7 @@ Definition val_encodable (f : tfield) (v : tval) : Prop :=
   | FMac, VBytes b => zlen b <= 65535
   | FOther, VBytes b => zlen b <= 65535
   | FGposStr, VBytes b => zlen b <= 255
+  | FKeyRec, VKey f p a _ _ => 0 <= f <= 65535 /\ 0 <= p <= 255 /\ 0 <= a <= 255
   | _, _ => True
   end.
 
@@ -128,6 +129,35 @@ Proof.
     apply G; [lia|exact Ed].
 Qed.
 
+Lemma legacy_flags_range : forallb (fun v => (0 <=? v) && (v <=? 65535)) (map snd legacy_flags) = true.
+Proof. vm_compute. reflexivity. Qed.
+
+Lemma assoc_text_in' k t v : assoc_text k t = Some v -> In v (map snd t).
+Proof.
+  induction t as [|[n x] t IH]; cbn [assoc_text]; [discriminate|].
+  destruct (zlist_eqb k n); [intros H; inversion H; left; reflexivity|intros H; right; apply IH, H].
+Qed.
+
+Lemma lor_u16 a b : 0 <= a <= 65535 -> 0 <= b <= 65535 -> 0 <= Z.lor a b <= 65535.
+Proof.
+  intros Ha Hb. split; [apply Z.lor_nonneg; lia|].
+  assert (Z.lor a b < 2 ^ 16); [|lia].
+  destruct (Z.eq_dec (Z.lor a b) 0) as [->|Hn]; [lia|].
+  apply Z.log2_lt_pow2; [assert (0 <= Z.lor a b) by (apply Z.lor_nonneg; lia); lia|].
+  rewrite Z.log2_lor by lia.
+  assert (La : Z.log2 a < 16) by (destruct (Z.eq_dec a 0) as [->|]; [cbn; lia|apply Z.log2_lt_pow2; lia]).
+  assert (Lb : Z.log2 b < 16) by (destruct (Z.eq_dec b 0) as [->|]; [cbn; lia|apply Z.log2_lt_pow2; lia]).
+  lia.
+Qed.
+
+Lemma or_mnemonics_range ms : forall acc v, 0 <= acc <= 65535 -> or_mnemonics ms acc = Ok v -> 0 <= v <= 65535.
+Proof.
+  induction ms as [|m ms IH]; intros acc v Ha H; cbn [or_mnemonics] in H; [inversion H; subst; exact Ha|].
+  destruct (assoc_text m legacy_flags) as [x|] eqn:E; try discriminate.
+  eapply IH; [|exact H]. apply lor_u16; [exact Ha|].
+  apply assoc_text_in' in E. pose proof legacy_flags_range as R. rewrite forallb_forall in R. specialize (R x E). lia.
+Qed.
+
 Lemma get_uint_range m st n st' : get_uint m st 10 = Ok (n, st') -> 0 <= n <= m.
 Proof.
   unfold get_uint, as_uint.
@@ -139,7 +169,7 @@ Qed.
 Theorem parse_field_encodable c f st raw st' v :
   parse_field c f st = Ok (raw, st') -> ctor_field f raw = Ok v -> val_encodable f v.
 Proof.
-  destruct f as [maxv| |tokmax ctormax ne| | |sc| |v6| | | | | |k| |maxc| |en| | | | |bmax| | | |ipsec| | | |]; cbn [parse_field]; intros H Hc.
+  destruct f as [maxv| |tokmax ctormax ne| | |sc| |v6| | | | | |k| |maxc| |en| | | | |bmax| | | |ipsec| | | | |]; cbn [parse_field]; intros H Hc.
   - unfold get_uint, as_uint in H.
     destruct (get_unescaped st) as [[t s1]| |]; cbn [bind fst snd] in H; try discriminate.
     destruct (as_int t 10) as [z| |]; cbn [bind fst snd] in H; try discriminate.
@@ -163,17 +193,17 @@ Proof.
   - destruct v; exact Logic.I.
   - destruct v; exact Logic.I.
   - destruct v; exact Logic.I.
-  - destruct raw as [z0|b|n0|l0|w0|ns0|g0 a0 gw0]; cbn [ctor_field] in Hc; try (inversion Hc; subst; exact Logic.I).
+  - destruct raw as [z0|b|n0|l0|w0|ns0|g0 a0 gw0|kf0 kp0 ka0 kat0 kk0]; cbn [ctor_field] in Hc; try (inversion Hc; subst; exact Logic.I).
     destruct (zlen b >? 255) eqn:E; try discriminate. inversion Hc; subst. cbn [val_encodable]. lia.
   - destruct (get_string st 0) as [[t s1]| |]; cbn [bind fst snd] in H; try discriminate. inversion H; subst.
     cbn [ctor_field] in Hc.
     destruct (alg_from_text t) as [z| |] eqn:E; cbn [bind] in Hc; try discriminate. inversion Hc; subst.
     cbn [val_encodable]. eapply alg_from_text_range; eauto.
-  - destruct raw as [z0|b|n0|l0|w0|ns0|g0 a0 gw0]; cbn [ctor_field] in Hc; try (inversion Hc; subst; exact Logic.I).
+  - destruct raw as [z0|b|n0|l0|w0|ns0|g0 a0 gw0|kf0 kp0 ka0 kat0 kk0]; cbn [ctor_field] in Hc; try (inversion Hc; subst; exact Logic.I).
     destruct ((zlen b >? 255) || is_nil b || negb (forallb is_alnum b)) eqn:E; try discriminate.
     inversion Hc; subst. cbn [val_encodable]. lia.
   - destruct v; exact Logic.I.
-  - destruct raw as [z0|b|n0|l0|w0|ns0|g0 a0 gw0]; cbn [ctor_field] in Hc; try (inversion Hc; subst; exact Logic.I).
+  - destruct raw as [z0|b|n0|l0|w0|ns0|g0 a0 gw0|kf0 kp0 ka0 kat0 kk0]; cbn [ctor_field] in Hc; try (inversion Hc; subst; exact Logic.I).
     destruct (zlen b >? 255) eqn:E; try discriminate. inversion Hc; subst. cbn [val_encodable]. lia.
   - destruct (get_string st 0) as [[t s1]| |]; cbn [bind fst snd] in H; try discriminate.
     destruct (enum_parse k t) as [z| |]; cbn [bind fst snd] in H; try discriminate. inversion H; subst.
@@ -195,15 +225,15 @@ Proof.
     destruct (as_int t 8) as [z| |]; cbn [bind fst snd] in H; try discriminate.
     destruct ((z <? 0) || (z >? max16)) eqn:E; cbn [bind fst snd] in H; try discriminate.
     inversion H; subst. cbn [ctor_field] in Hc. inversion Hc; subst. cbn [val_encodable]. unfold max16 in E. lia.
-  - destruct raw as [z0|b|n0|l0|w0|ns0|g0 a0 gw0]; cbn [ctor_field] in Hc; try (inversion Hc; subst; exact Logic.I).
+  - destruct raw as [z0|b|n0|l0|w0|ns0|g0 a0 gw0|kf0 kp0 ka0 kat0 kk0]; cbn [ctor_field] in Hc; try (inversion Hc; subst; exact Logic.I).
     destruct (zlen b >? 255) eqn:E; try discriminate. inversion Hc; subst. cbn [val_encodable]. lia.
-  - destruct raw as [z0|b|n0|l0|w0|ns0|g0 a0 gw0]; cbn [ctor_field] in Hc; try (inversion Hc; subst; exact Logic.I).
+  - destruct raw as [z0|b|n0|l0|w0|ns0|g0 a0 gw0|kf0 kp0 ka0 kat0 kk0]; cbn [ctor_field] in Hc; try (inversion Hc; subst; exact Logic.I).
     destruct (zlen b >? 255) eqn:E; try discriminate. inversion Hc; subst. cbn [val_encodable]. lia.
-  - destruct raw as [z0|b|n0|l0|w0|ns0|g0 a0 gw0]; cbn [ctor_field] in Hc; try (inversion Hc; subst; exact Logic.I).
+  - destruct raw as [z0|b|n0|l0|w0|ns0|g0 a0 gw0|kf0 kp0 ka0 kat0 kk0]; cbn [ctor_field] in Hc; try (inversion Hc; subst; exact Logic.I).
     destruct (zlen b >? bmax) eqn:E; try discriminate. inversion Hc; subst. cbn [val_encodable]. lia.
   - destruct v; exact Logic.I.
   - destruct v; exact Logic.I.
-  - destruct raw as [z0|b|n0|l0|w0|ns0|g0 a0 gw0]; cbn [ctor_field] in Hc; try (inversion Hc; subst; exact Logic.I).
+  - destruct raw as [z0|b|n0|l0|w0|ns0|g0 a0 gw0|kf0 kp0 ka0 kat0 kk0]; cbn [ctor_field] in Hc; try (inversion Hc; subst; exact Logic.I).
     destruct (zlen b >? 65535) eqn:E; try discriminate. inversion Hc; subst. cbn [val_encodable]. lia.
   - destruct v; exact Logic.I.
   - destruct v; exact Logic.I.
@@ -227,6 +257,37 @@ Proof.
     destruct (get_string st 0) as [[t s1]| |]; cbn [bind fst snd] in H; try discriminate. inversion H; subst.
     cbn [ctor_field] in Hc. destruct (utf8_encode t) as [e| |]; cbn [bind] in Hc; try discriminate.
     destruct (zlen e >? 255) eqn:E; try discriminate. inversion Hc; subst. cbn [val_encodable]. lia.
+  - (* FKeyRec *)
+    unfold key_from_text in H.
+    destruct (get0 st) as [[t1 s1]| |]; cbn [bind fst snd] in H; try discriminate.
+    destruct (key_number_or max16 _ t1) as [fl| |] eqn:Ef; cbn [bind fst snd] in H; try discriminate.
+    destruct (get0 s1) as [[t2 s2]| |]; cbn [bind fst snd] in H; try discriminate.
+    destruct (key_number_or max8 _ t2) as [pr| |] eqn:Epr; cbn [bind fst snd] in H; try discriminate.
+    destruct (get_string s2 0) as [[at_ s3]| |]; cbn [bind fst snd] in H; try discriminate.
+    assert (Hraw : exists k, raw = VKey fl pr 0 at_ k).
+    { destruct (negb (Z.land fl 49152 =? 49152)).
+      - destruct (concatenate_remaining_identifiers s3 false) as [[w s4]| |]; cbn [bind fst snd] in H; try discriminate.
+        destruct (utf8_encode w) as [e| |]; cbn [bind] in H; try discriminate.
+        destruct (b64decode e) as [k| |]; cbn [bind] in H; try discriminate. inversion H; subst. eauto.
+      - inversion H; subst. eauto. }
+    destruct Hraw as (k & ->). cbn [ctor_field] in Hc.
+    destruct (alg_from_text at_) as [a| |] eqn:Ea; cbn [bind] in Hc; try discriminate. inversion Hc; subst.
+    cbn [val_encodable]. split; [|split].
+    + unfold key_number_or in Ef. destruct (as_uint max16 t1 10) as [x| |] eqn:Eu.
+      * inversion Ef; subst. unfold as_uint in Eu. destruct (as_int t1 10) as [z| |]; cbn [bind] in Eu; try discriminate.
+        destruct ((z <? 0) || (z >? max16)) eqn:E; try discriminate. inversion Eu; subst. unfold max16 in E. lia.
+      * destruct (as_string t1 0) as [sname| |]; cbn [bind] in Ef; try discriminate.
+        eapply or_mnemonics_range; [|exact Ef]. lia.
+      * discriminate.
+    + unfold key_number_or in Epr. destruct (as_uint max8 t2 10) as [x| |] eqn:Eu.
+      * inversion Epr; subst. unfold as_uint in Eu. destruct (as_int t2 10) as [z| |]; cbn [bind] in Eu; try discriminate.
+        destruct ((z <? 0) || (z >? max8)) eqn:E; try discriminate. inversion Eu; subst. unfold max8 in E. lia.
+      * destruct (as_string t2 0) as [sname| |]; cbn [bind] in Epr; try discriminate.
+        destruct (assoc_text sname key_protocols) as [v0|] eqn:Et; try discriminate. inversion Epr; subst.
+        revert Et. unfold key_protocols. cbn [assoc_text].
+        repeat (destruct (zlist_eqb sname _); [intros Et; inversion Et; lia|]). discriminate.
+      * discriminate.
+    + eapply alg_from_text_range; eauto.
 Qed.
 
 (* names accepted from text satisfy the DNS limits (hence to_wire with an origin cannot fail on length) *)
